@@ -61,7 +61,10 @@ def build_model():
     """Extract the Coq model and compile the runner; cached by source hash."""
     os.makedirs(BUILD, exist_ok=True)
     h = hashlib.sha256()
-    srcs = sorted(f for f in os.listdir(COQ) if f.endswith(".v")) 
+    # the sources the extracted model is made of (Extract.v and what it imports), not the proof files
+    MODEL_SRCS = ["Bits.v", "SpecSkinny.v", "SpecMantis.v", "ModelCipher.v", "ModelCtr.v", "ModelCpu.v", "Api.v", "ModelArduino.v",
+                  "ArdApi.v", "ModelTools.v", "Extract.v"]
+    srcs = MODEL_SRCS
     for f in srcs:
         h.update(open(os.path.join(COQ, f), "rb").read())
     h.update(open(os.path.join(HARNESS, "model_main.ml"), "rb").read())
@@ -73,9 +76,8 @@ def build_model():
     ok, log = coq_make(["Api.vo", "ArdApi.vo", "ModelTools.vo"])
     if not ok:
         raise RuntimeError("Coq model does not build:\n" + log[-3000:])
-    d = os.path.join(BUILD, "extract")
-    shutil.rmtree(d, ignore_errors=True)
-    os.makedirs(d)
+    import tempfile
+    d = tempfile.mkdtemp(prefix="extract_", dir=BUILD)          # private to this process: concurrent checks do not collide
     rc, out, err = sh(["coqc", "-Q", COQ, "Skinny", os.path.join(COQ, "Extract.v")], cwd=d)
     if rc != 0:
         raise RuntimeError("extraction failed:\n" + out + err)
@@ -84,12 +86,15 @@ def build_model():
                       cwd=d)
     if rc != 0:
         raise RuntimeError("ocaml build failed:\n" + out + err)
-    shutil.copy(os.path.join(d, "model"), exe)
+    tmp_exe = exe + ".%d.tmp" % os.getpid()
+    shutil.copy(os.path.join(d, "model"), tmp_exe); os.replace(tmp_exe, exe)    # atomic: a running model is never overwritten in place
     # coqc leaves Extract.vo/.glob beside the source; remove them
     for ext in (".vo", ".glob", ".vok", ".vos"):
         try: os.remove(os.path.join(COQ, "Extract" + ext))
         except OSError: pass
-    open(stamp, "w").write(tag)
+    tmp_stamp = stamp + ".%d.tmp" % os.getpid()
+    open(tmp_stamp, "w").write(tag); os.replace(tmp_stamp, stamp)
+    shutil.rmtree(d, ignore_errors=True)
     return exe
 
 # ----------------------------------------------------------------------
